@@ -183,6 +183,8 @@ def _oop(role, pos, t, authed_pos):
     else:
         if t in (5, 50, 61):
             return True             # only a client sends these
+        if t == 6 and pos in ('post_accept', 'post_auth'):
+            return True             # the one accept was consumed already
         if not authed:
             if t >= 80:
                 return True
@@ -226,7 +228,7 @@ def gen_cases(tier, seed):
     for role, positions in (('server', SRV_POS), ('client', CLI_POS)):
         for pos in positions:
             for strict in (True, False):
-                for t in (7, 80, 90):
+                for t in (7, 80, 90, 5, 6, 50, 52):
                     for k in range(2):
                         cases.append({'kind': 'endpoint', 'role': role,
                                       'pos': pos, 'type': t, 'form': 'min',
@@ -258,12 +260,19 @@ def gen_cases(tier, seed):
     # well-formed and carrying the RIGHT answer
     scripts = ['kbd_right_after_failure', 'kbd_right_before_request',
                'kbd_right_after_other_method', 'kbd_right_twice',
-               'kbd_right_after_none']
+               'kbd_right_after_none', 'kbd_right_after_user_switch',
+               'kbd_right_after_user_switch_pw']
     for i in range(len(scripts) * (3 if tier == 'quick' else 30)):
         cases.append({'kind': 'stale', 'script': scripts[i % len(scripts)],
                       'chunk': rng.choice(['all', 'record', 'random']),
                       'pipelined': rng.random() < 0.5,
                       'cseed': rng.randrange(1 << 30)})
+    for sc in ('kbd_right_after_user_switch',
+               'kbd_right_after_user_switch_pw'):
+        for ch in ('all', 'record'):
+            for pl in (True, False):
+                cases.append({'kind': 'stale', 'script': sc, 'chunk': ch,
+                              'pipelined': pl, 'cseed': 41})
     return cases
 
 
@@ -1167,6 +1176,16 @@ def _run_stale(case, mon, viol):
                 await step(kreq())
                 await step(peer.userauth_request(
                     b'user', b'password', R.boolean(False) + R.sstr(b'x')))
+                await step(resp(b'right'))
+            elif sc.startswith('kbd_right_after_user_switch'):
+                # a challenge for alice is outstanding; a request for bob
+                # supersedes it and alice's right answer follows in the same
+                # segment, before bob's request has been set up
+                await step(kreq(b'alice'))
+                second = peer.userauth_request(b'bob', b'none', b'') \
+                    if sc.endswith('switch') else peer.userauth_request(
+                        b'bob', b'password', R.boolean(False) + R.sstr(b'x'))
+                await step(second, wait=False)
                 await step(resp(b'right'))
             elif sc == 'kbd_right_twice':
                 await step(kreq())
